@@ -393,10 +393,19 @@ func (s *Session) runUnits(names []string) ([]*UnitResult, error) {
 			continue
 		}
 		fname := fmt.Sprintf("%s-%d-retry", t.o.Name, t.id)
-		if r, _ := solve(s.workdir, fname, string(b), s.timeout*4, 1); r.Status == "sat" || r.Status == "unsat" {
-			r.Backend += "(retry)"
-			r.Output = strings.TrimSpace(r.Output)
-			t.o.Res = r
+		// up to three more attempts, the later ones with other solver seeds (an
+		// "unknown" from quantifier instantiation is often a matter of search order)
+		for attempt := 0; attempt < 3; attempt++ {
+			script := string(b)
+			if attempt > 0 {
+				script = fmt.Sprintf("(set-option :smt.random_seed %d)\n(set-option :sat.random_seed %d)\n", attempt*7919, attempt*104729) + script
+			}
+			if r, _ := solve(s.workdir, fname, script, s.timeout*4, 1); r.Status == "sat" || r.Status == "unsat" {
+				r.Backend += fmt.Sprintf("(retry %d)", attempt+1)
+				r.Output = strings.TrimSpace(r.Output)
+				t.o.Res = r
+				break
+			}
 		}
 		os.Remove(filepath.Join(s.workdir, sanitizeFile(fname)+".smt2"))
 	}
